@@ -467,3 +467,37 @@ func dedupOwners(u *unstructured.Unstructured) {
 	}
 	u.SetOwnerReferences(out)
 }
+
+// Clone returns an independent deep copy of the store's objects, counters
+// and configuration (not its write log, hooks or injector).
+func (s *Store) Clone() *Store {
+	s.mu.Lock()
+	defer s.mu.Unlock()
+	n := New(s.Scheme)
+	for k, e := range s.objs {
+		ne := &entry{obj: deepCopy(e.obj)}
+		for _, h := range e.history {
+			ne.history = append(ne.history, deepCopy(h))
+		}
+		n.objs[k] = ne
+	}
+	n.rv, n.uidN, n.nameN = s.rv, s.uidN, s.nameN
+	for k, v := range s.noStat {
+		n.noStat[k] = v
+	}
+	for k, v := range s.NoMatch {
+		n.NoMatch[k] = v
+	}
+	for k, v := range s.NamespacedKinds {
+		n.NamespacedKinds[k] = v
+	}
+	for k, v := range s.indexes {
+		n.indexes[k] = map[string]indexer{}
+		for f, ix := range v {
+			n.indexes[k][f] = ix
+		}
+	}
+	n.Now, n.HistoryDepth, n.DefaultManager = s.Now, s.HistoryDepth, s.DefaultManager
+	n.Admit = append(n.Admit, s.Admit...)
+	return n
+}
